@@ -76,6 +76,17 @@ func newWorld(n, nw int) *world {
 	go func() {
 		w.gids.Store(gid(), -1)
 		for op := range w.f.cmd {
+			if op == "done" {
+				w.s.Done()
+				w.rep <- report{-1, "ret", "done"}
+				continue
+			}
+			if strings.HasPrefix(op, "add ") {
+				k, _ := strconv.Atoi(op[4:])
+				w.s.AddWaker(w.ws[k], k)
+				w.rep <- report{-1, "ret", "added"}
+				continue
+			}
 			id, ok := w.s.Fetch(op == "1")
 			if ok {
 				w.rep <- report{-1, "ret", fmt.Sprint(id)}
@@ -150,6 +161,47 @@ func (w *world) afterWake(wasParked bool) {
 	}
 }
 
+// scriptStraggler replays, on every run, the schedule of the recorded finding (Props.C19.done_straggler_witness): an
+// asserting goroutine has pushed its waker and stands before its load of waitingG; Done runs to its end; the
+// goroutine then reads the sleeper's word.
+func scriptStraggler(r *hx.Run, w *world) {
+	call := func(t int, what string, k int) {
+		line := fmt.Sprintf("call %d %s %d", t, what, k)
+		r.Pending(line)
+		w.th[t].cmd <- fmt.Sprintf("%s %d", what, k)
+		w.await(t, false)
+		r.Emit(line, fmt.Sprintf("t=%s f=%s", w.th[t].status, w.f.status))
+	}
+	astep := func(t int) {
+		line := fmt.Sprintf("astep %d", t)
+		r.Pending(line)
+		wasParked := w.f.status == "parked"
+		w.th[t].run <- struct{}{}
+		w.await(t, false)
+		w.afterWake(wasParked)
+		r.Emit(line, fmt.Sprintf("t=%s f=%s", w.th[t].status, w.f.status))
+	}
+	call(0, "assert", 0)
+	for i := 0; i < 8 && w.th[0].status != "at:wakeLoad"; i++ {
+		astep(0)
+	}
+	r.Pending("done")
+	w.f.cmd <- "done"
+	w.await(-1, false)
+	r.Emit("done", "f="+w.f.status)
+	for i := 0; i < 40 && strings.HasPrefix(w.f.status, "at:"); i++ {
+		r.Pending("fstep")
+		atPark := w.f.status == "at:nextPark"
+		w.f.run <- struct{}{}
+		w.await(-1, atPark)
+		r.Emit("fstep", "f="+w.f.status)
+	}
+	for i := 0; i < 4 && strings.HasPrefix(w.th[0].status, "at:"); i++ {
+		astep(0)
+	}
+	r.Count("done.straggler-script")
+}
+
 // Gen generates forced schedules.
 func Gen(r *hx.Run) {
 	nh := r.Pick(300, 5000)
@@ -157,8 +209,22 @@ func Gen(r *hx.Run) {
 		n := 1 + r.R.Intn(r.Pick(3, 4))
 		nw := 1 + r.R.Intn(3)
 		w := newWorld(n, nw)
-		r.Emit(fmt.Sprintf("new %d", n), "ok")
+		r.Emit(fmt.Sprintf("new %d %d", n, nw), "ok")
 		steps := 10 + r.R.Intn(r.Pick(60, 120))
+		// a third of the histories end with Done(): called at a random moment when no Fetch is in progress; afterwards
+		// only the asserting goroutines move (stragglers of calls in progress, new calls on the detached wakers)
+		doneAt := -1
+		if h%3 == 0 {
+			doneAt = r.R.Intn(steps)
+		}
+		if h == 0 {
+			scriptStraggler(r, w)
+			continue
+		}
+		doneCalled, afterDone := false, 0
+		// half of the histories with a Done attach some of the wakers again afterwards and go on
+		reattach := r.R.Intn(2) == 0
+		var toAdd []int
 		for k := 0; k < steps; k++ {
 			// candidates: start a fetch, step the fetcher, start a call on an idle thread, step a thread at a point
 			type cand struct {
@@ -167,8 +233,27 @@ func Gen(r *hx.Run) {
 			}
 			var cs []cand
 			fst := w.f.status
-			if !strings.HasPrefix(fst, "at:") && fst != "parked" {
-				cs = append(cs, cand{"fetch", 0})
+			if fst == "ret:done" || (fst == "ret:added" && len(toAdd) > 0) {
+				if fst == "ret:done" && afterDone == 0 && reattach {
+					for k := 0; k < nw; k++ {
+						if r.R.Intn(3) != 0 {
+							toAdd = append(toAdd, k)
+						}
+					}
+					doneAt, doneCalled = -1, false // the sleeper is in use again: no second Done in this history
+				}
+				afterDone++
+				if len(toAdd) > 0 && (r.R.Intn(3) == 0 || fst == "ret:added") {
+					cs = append(cs, cand{"add", toAdd[0]}, cand{"add", toAdd[0]})
+				} else if len(toAdd) == 0 && afterDone > 12 {
+					break
+				}
+			} else if !strings.HasPrefix(fst, "at:") && fst != "parked" {
+				if doneAt >= 0 && k >= doneAt && !doneCalled {
+					cs = append(cs, cand{"done", 0}, cand{"done", 0}, cand{"done", 0})
+				} else if !doneCalled {
+					cs = append(cs, cand{"fetch", 0})
+				}
 			} else if fst != "parked" {
 				cs = append(cs, cand{"fstep", 0}, cand{"fstep", 0})
 			}
@@ -179,9 +264,27 @@ func Gen(r *hx.Run) {
 					cs = append(cs, cand{"call", t})
 				}
 			}
+			if len(cs) == 0 {
+				break
+			}
 			c := cs[r.R.Intn(len(cs))]
 			wasParked := w.f.status == "parked"
 			switch c.kind {
+			case "add":
+				toAdd = toAdd[1:]
+				line := fmt.Sprintf("add %d", c.t)
+				r.Pending(line)
+				w.f.cmd <- line
+				w.await(-1, false)
+				r.Count("add")
+				r.Emit(line, "f="+w.f.status)
+			case "done":
+				doneCalled = true
+				r.Pending("done")
+				w.f.cmd <- "done"
+				w.await(-1, false)
+				r.Count("done")
+				r.Emit("done", "f="+w.f.status)
 			case "fetch":
 				b := "1"
 				if r.R.Intn(3) == 0 {
